@@ -124,11 +124,14 @@ class Helper:
             return False
         stmts = {id(n.value) for n in ast.walk(self.node) if isinstance(n, ast.Expr)}
         for n in _own_nodes(self.node):
-            if isinstance(n, ast.YieldFrom) or isinstance(n, ast.Return):
+            if isinstance(n, ast.YieldFrom):
+                return False
+            if isinstance(n, ast.Return) and n.value is not None:
                 return False
             if isinstance(n, ast.Yield) and (id(n) not in stmts or n.value is None):
                 return False
-        return True
+        # a bare `return` ends the generator: expressible only in the if/else trees of the top-level block
+        return self.returns_ok()
 
     def returns_ok(self) -> bool:
         """`return` only in if/else trees of the top-level block."""
@@ -383,6 +386,18 @@ class Inliner:
                     init = _loc(ast.Assign(targets=[ast.Name(id=acc, ctx=ast.Store())], value=ast.List(elts=[], ctx=ast.Load())), s)
                     blk[i:i + 1] = [init, loop] + tail
                     return True
+                if (
+                    isinstance(s, ast.Expr) and isinstance(s.value, ast.YieldFrom) and self._is_call_of(s.value.value, h) and not h.is_async
+                ):
+                    cf = NameFacts(fn)
+                    used = set(cf.stores) | set(cf.loads) | cf.special
+                    k = 1
+                    while f"_each{k if k > 1 else ''}" in used:
+                        k += 1
+                    v = f"_each{k if k > 1 else ''}"
+                    y = _loc(ast.Expr(value=ast.Yield(value=ast.Name(id=v, ctx=ast.Load()))), s)
+                    blk[i] = _loc(ast.For(target=ast.Name(id=v, ctx=ast.Store()), iter=s.value.value, body=[y], orelse=[], type_comment=None), s)
+                    return True
                 if not isinstance(s, (ast.For, ast.AsyncFor)) or not self._is_call_of(s.iter, h) or s.orelse:
                     continue
                 if isinstance(s, ast.AsyncFor) != h.is_async:
@@ -409,6 +424,11 @@ class Inliner:
                     continue
                 names, subst, pre = self._fresh(fn, h, binding)
                 body = [_Rename(names, subst).visit(copy.deepcopy(x)) for x in h.body]
+                if any(isinstance(n, ast.Return) for b in body for n in ast.walk(b)):
+                    nb = _single_exit(body, lambda value, at: [])
+                    if nb is None:
+                        continue
+                    body = nb or [_loc(ast.Pass(), s)]
                 target, loop_body = s.target, s.body
 
                 class _Y(ast.NodeTransformer):
